@@ -1669,6 +1669,10 @@ def _immutable_literal(n):
         return isinstance(n.operand, ast.Constant) and isinstance(n.operand.value, (int, float))
     if isinstance(n, ast.Tuple):
         return all(_immutable_literal(e) for e in n.elts)
+    if isinstance(n, ast.BinOp) and isinstance(n.op, (ast.Add, ast.Sub, ast.Mult, ast.Div, ast.Pow, ast.FloorDiv, ast.Mod)):
+        return _immutable_literal(n.left) and _immutable_literal(n.right)       # HALF_PI = np.pi / 2.0
+    if isinstance(n, ast.Attribute) and isinstance(n.value, ast.Name) and n.value.id in ("np", "numpy", "math") and n.attr in ("pi", "e", "tau", "inf"):
+        return True
     return False
 
 
